@@ -719,6 +719,32 @@ def merge_corpus(found, which):
     return old
 
 
+def write_root_cause_groups():
+    """corpus/c16_root_causes.json: the campaign keys grouped by root cause, with a key_regex per group that can be
+    pasted into known_findings.json (a regex, because the crash function of a memory-corrupting root cause depends on
+    which k was failed)."""
+    keys = json.load(open(CORPUS_KEYS))
+    groups = {}
+    for key, ent in sorted(keys.items()):
+        rc = ent["root_cause"]
+        gid = rc.split(" ", 1)[0]
+        g = groups.setdefault(gid, {"root_cause": rc, "keys": [], "total_count": 0})
+        g["keys"].append(key)
+        g["total_count"] += ent["count"]
+    for gid, g in groups.items():
+        apis = sorted({k.split("|")[1] for k in g["keys"]})
+        sites = sorted({re.escape(k.split("|")[2]) for k in g["keys"]})
+        outs = sorted({k.split("|")[3] for k in g["keys"]})
+        if all(o in ("returns-success", "leak", "hang") for o in outs):
+            tail = "(%s)" % "|".join(outs)
+        else:
+            tail = ".*"
+        g["key_regex"] = "C16\\|(%s)\\|(%s)\\|%s" % ("|".join(apis), "|".join(sites), tail)
+    out = os.path.join(os.path.dirname(CORPUS_KEYS), "c16_root_causes.json")
+    json.dump(groups, open(out, "w"), indent=1, sort_keys=True)
+    return out
+
+
 def reclassify(argv):
     """python3 -m vf.props.c16 reclass <raw.json> enc|dec [opts...]: classify saved raw campaign results again with the
     current code (run 0 is repeated to rebuild the event table; the numbering is deterministic)."""
@@ -757,3 +783,5 @@ if __name__ == "__main__":
         campaign(sys.argv[2:])
     elif len(sys.argv) > 1 and sys.argv[1] == "reclass":
         reclassify(sys.argv[2:])
+    elif len(sys.argv) > 1 and sys.argv[1] == "groups":
+        print(write_root_cause_groups())
